@@ -17,7 +17,7 @@ use std::collections::{HashMap, HashSet};
 use std::panic::AssertUnwindSafe;
 
 #[derive(Clone, Debug, PartialEq)]
-pub enum JInsn { New(S), CheckCast(S), ANewArray(S), InstanceOf(S), GetStatic(S, S, S), PutStatic(S, S, S), InvokeStatic(S, S, S), InvokeVirtual(S, S, S), LdcClass(S), AConstNull, Pop, Return }
+pub enum JInsn { New(S), CheckCast(S), ANewArray(S), InstanceOf(S), GetStatic(S, S, S), PutStatic(S, S, S), GetField(S, S, S), PutField(S, S, S), InvokeStatic(S, S, S), InvokeVirtual(S, S, S), LdcClass(S), AConstNull, Pop, Return }
 #[derive(Clone, Debug, PartialEq)]
 pub struct JMethod { pub access: u16, pub name: S, pub desc: S, pub code: Option<Vec<JInsn>>, pub exceptions: Vec<S> }
 pub type JInner = (S, Option<S>, Option<S>, u16);
@@ -65,6 +65,8 @@ pub fn build(s: &JSpec) -> Vec<u8> {
 					JInsn::InstanceOf(c) => { let x = p.class(c); op2(&mut b, 0xC1, x) }
 					JInsn::GetStatic(o, n, d) => { let x = p.field(o, n, d); op2(&mut b, 0xB2, x) }
 					JInsn::PutStatic(o, n, d) => { let x = p.field(o, n, d); op2(&mut b, 0xB3, x) }
+					JInsn::GetField(o, n, d) => { let x = p.field(o, n, d); op2(&mut b, 0xB4, x) }
+					JInsn::PutField(o, n, d) => { let x = p.field(o, n, d); op2(&mut b, 0xB5, x) }
 					JInsn::InvokeStatic(o, n, d) => { let x = p.method(o, n, d); op2(&mut b, 0xB8, x) }
 					JInsn::InvokeVirtual(o, n, d) => { let x = p.method(o, n, d); op2(&mut b, 0xB6, x) }
 					JInsn::LdcClass(c) => { let x = p.class(c); op2(&mut b, 0x13, x) }
@@ -100,6 +102,7 @@ pub fn rename_spec(s: &JSpec, f: &dyn Fn(&S) -> S) -> JSpec {
 		JInsn::New(c) => JInsn::New(ren_class(f, c)), JInsn::CheckCast(c) => JInsn::CheckCast(ren_class(f, c)), JInsn::ANewArray(c) => JInsn::ANewArray(ren_class(f, c)),
 		JInsn::InstanceOf(c) => JInsn::InstanceOf(ren_class(f, c)), JInsn::LdcClass(c) => JInsn::LdcClass(ren_class(f, c)),
 		JInsn::GetStatic(o, n, d) => JInsn::GetStatic(ren_class(f, o), n.clone(), ren_desc(f, d)), JInsn::PutStatic(o, n, d) => JInsn::PutStatic(ren_class(f, o), n.clone(), ren_desc(f, d)),
+		JInsn::GetField(o, n, d) => JInsn::GetField(ren_class(f, o), n.clone(), ren_desc(f, d)), JInsn::PutField(o, n, d) => JInsn::PutField(ren_class(f, o), n.clone(), ren_desc(f, d)),
 		JInsn::InvokeStatic(o, n, d) => JInsn::InvokeStatic(ren_class(f, o), n.clone(), ren_desc(f, d)), JInsn::InvokeVirtual(o, n, d) => JInsn::InvokeVirtual(ren_class(f, o), n.clone(), ren_desc(f, d)),
 		x => x.clone(),
 	};
